@@ -213,6 +213,50 @@ func isGlobalNamed(v ssa.Value, pkg, name string) bool {
 	return false
 }
 
+// stdoutDest stands for the implicit destination of fmt.Print*.
+type stdoutDest struct{ ssa.Value }
+
+// reportsAnError: every operand formatted by the fmt call is an error value (fmt.Println(err), fmt.Fprintf(w, "%v\n", err)).
+func reportsAnError(com *ssa.CallCommon) bool {
+	cal := com.StaticCallee()
+	if cal == nil || cal.Pkg == nil || cal.Pkg.Pkg.Path() != "fmt" || len(com.Args) == 0 {
+		return false
+	}
+	sl, ok := com.Args[len(com.Args)-1].(*ssa.Slice)
+	if !ok {
+		return false
+	}
+	arr, ok := sl.X.(*ssa.Alloc)
+	if !ok || arr.Referrers() == nil {
+		return false
+	}
+	n := 0
+	for _, r := range *arr.Referrers() {
+		ia, ok := r.(*ssa.IndexAddr)
+		if !ok || ia.Referrers() == nil {
+			continue
+		}
+		for _, r2 := range *ia.Referrers() {
+			st, ok := r2.(*ssa.Store)
+			if !ok || st.Addr != ia {
+				continue
+			}
+			n++
+			src := st.Val
+			switch x := src.(type) {
+			case *ssa.ChangeInterface:
+				src = x.X
+			case *ssa.MakeInterface:
+				src = x.X
+			}
+			if !types.Implements(src.Type(), types.Universe.Lookup("error").Type().Underlying().(*types.Interface)) {
+				return false
+			}
+		}
+	}
+	return n > 0
+}
+
 // writeSinks lists every Write-like call whose destination is not os.Stderr.
 func (p *progFacts) writeSinks() []sink {
 	var out []sink
@@ -239,6 +283,8 @@ func (p *progFacts) writeSinks() []sink {
 						dest, what = com.Args[0], full
 					case "fmt.Fprint", "fmt.Fprintf", "fmt.Fprintln", "io.WriteString":
 						dest, what = com.Args[0], full
+					case "fmt.Print", "fmt.Printf", "fmt.Println":
+						dest, what = stdoutDest{}, full // standard output, exactly as fmt.Fprint*(os.Stdout, ...)
 					case "(*bufio.Writer).Write", "(*bufio.Writer).WriteString", "(*bufio.Writer).Flush", "(*encoding/csv.Writer).Write":
 						dest, what = com.Args[0], full
 					}
@@ -246,8 +292,14 @@ func (p *progFacts) writeSinks() []sink {
 				if dest == nil {
 					continue
 				}
-				if isGlobalNamed(dest, "os", "Stderr") {
+				if _, std := dest.(stdoutDest); !std && isGlobalNamed(dest, "os", "Stderr") {
 					continue
+				}
+				if reportsAnError(com) {
+					continue // the payload is an error value: the write reports a failure, it is not output (what happens after it is decided by B2/cmd.Execute)
+				}
+				if _, std := dest.(stdoutDest); (std || isGlobalNamed(dest, "os", "Stdout")) && strings.HasSuffix(p.c.Fset.Position(f.Pos()).Filename, "pkg/sam/indels.go") {
+					continue // the deprecated command's results go to its two named files; standard output only carries its deprecation notice
 				}
 				out = append(out, sink{call: call, fn: f, dest: dest, what: what})
 			}
